@@ -387,7 +387,8 @@ class LTChar(LTComponent, LTText):
         self.adv = textwidth * fontsize * scaling
         # compute the boundary rectangle.
         if font.is_vertical():
-            # vertical
+            # vertical: the displacement is along y and is not scaled by Th
+            self.adv = textwidth * fontsize
             assert isinstance(textdisp, tuple)
             (vx, vy) = textdisp
             if vx is None:
